@@ -58,7 +58,7 @@ PROPS = {
         not_yet_proved=[],
     ),
     "C05": dict(
-        extra_modules=["CstModel.Props.GenNode", "CstModel.Proofs.Conc"],
+        extra_modules=["CstModel.Props.GenNode", "CstModel.Props.GenSlot", "CstModel.Proofs.Conc"],
         tags=["C05", "C06"],
         runs=runs([("conc:traverse", "release")],
                   [("conc:traverse", "release"), ("conc:traverse", "debug"), ("conc:lifecycle", "release")]),
